@@ -697,18 +697,25 @@ class Data(Field):
                     byte_count = getattr(pkt, self.byte_count.field_name)
 
                 elif callable(self.byte_count):
+                    # The callable may compute its result from a field that
+                    # is Any (Any is equal to everything and it is true):
+                    # that count means nothing. See which fields it reads.
+                    fields_read = []
+
+                    class PacketReadThrough(object):
+                        def __getattr__(_, name):
+                            value = getattr(pkt, name)
+                            fields_read.append(value)
+                            return value
+
                     try:
-                        byte_count = self.byte_count(pkt=pkt, **k)
+                        byte_count = self.byte_count(
+                            pkt=PacketReadThrough(), **k
+                        )
                     except Exception as e:
                         byte_count = None
 
-                    # The callable may have computed its result from a field
-                    # that is Any (Any is equal to everything and it is true):
-                    # that count means nothing.
-                    if any(
-                        isinstance(getattr(pkt, name, None), Any)
-                        for name, f, _, _ in pkt.get_fields() if f is not self
-                    ):
+                    if any(isinstance(value, Any) for value in fields_read):
                         byte_count = None
 
                 # the count is unknown if it comes from a field that is Any
